@@ -229,6 +229,8 @@ fn entries() -> Vec<Entry> {
     let txout0 = tx.get_output(0).unwrap();
     let script = sample_tx().inputs[0].script.clone();
     let cond_script = vec![0x51, 0x63, 0x02, 0xaa, 0xbb, 0x67, 0x4d, 0x02, 0x00, 0x01, 0x02, 0x68, 0xac];
+    // a data-carrier script: the parser is lenient about what follows an OP_RETURN, so length fields behind one are a separate path
+    let opret_script = vec![0x00, 0x6a, 0x04, 0x01, 0x02, 0x03, 0x04, 0x4c, 0x02, 0xaa, 0xbb, 0x4d, 0x01, 0x00, 0xcc];
     let k = key1();
     let pk = k.to_public_key().unwrap();
     let pk_unc = pk.to_decompressed().unwrap();
@@ -281,7 +283,7 @@ fn entries() -> Vec<Entry> {
     bytes_entry!("TxIn::from_outpoint_bytes", vec![txin0.get_outpoint_bytes(Some(true))], |b: &[u8]| {
         let _ = mark(TxIn::from_outpoint_bytes(b));
     });
-    bytes_entry!("Script::from_bytes", vec![script.clone(), cond_script.clone()], |b: &[u8]| {
+    bytes_entry!("Script::from_bytes", vec![script.clone(), cond_script.clone(), opret_script.clone()], |b: &[u8]| {
         if let Ok(sc) = mark(Script::from_bytes(b)) {
             let _ = sc.to_asm_string();
             let _ = sc.to_extended_asm_string();
@@ -417,7 +419,7 @@ fn entries() -> Vec<Entry> {
             let _ = t.to_bytes();
         }
     });
-    text_entry!("TxOut::from_hex", vec![txout0.to_hex().unwrap()], |b: &[u8]| {
+    text_entry!("TxOut::from_hex", vec![txout0.to_hex().unwrap(), tx.get_output(1).unwrap().to_hex().unwrap()], |b: &[u8]| {
         let _ = mark(TxOut::from_hex(&s(b)));
     });
     text_entry!("serde_json::<TxOut>", vec![txout0.to_json_string().unwrap()], |b: &[u8]| {
@@ -425,7 +427,7 @@ fn entries() -> Vec<Entry> {
             let _ = t.to_bytes();
         }
     });
-    text_entry!("Script::from_hex", vec![hex::encode(&cond_script)], |b: &[u8]| {
+    text_entry!("Script::from_hex", vec![hex::encode(&cond_script), hex::encode(&opret_script)], |b: &[u8]| {
         let _ = mark(Script::from_hex(&s(b)));
     });
     text_entry!("Script::from_asm_string", vec![Script::from_bytes(&cond_script).unwrap().to_asm_string(), "OP_DUP OP_HASH160 0102030405060708090a0b0c0d0e0f1011121314 OP_EQUALVERIFY OP_CHECKSIG".to_string()], |b: &[u8]| {
